@@ -478,7 +478,11 @@ def _count(val: Any) -> int | None:
         return None
     try:
         return to_int(val)
-    except (ValueError, TypeError, OverflowError, LiquidValueError):
-        # Not a number (a list, infinity, ...), or one with too many digits to
-        # convert, like the translate tag's count.
+    except LiquidValueError:
+        if isinstance(val, str):
+            # Too many digits to be a count, as `int()` says of such a string.
+            return None
+        raise
+    except (ValueError, TypeError, OverflowError):
+        # Not a number (a list, infinity, ...), like the translate tag's count.
         return None
